@@ -1162,57 +1162,74 @@ Theorem closed_only_when_really_empty_hist s0 h e q a : let s := run s0 h in
 Proof. intros s C B. apply closed_only_when_really_empty. by apply idx_complete_run. Qed.
 
 (* ---------- provenance of requests (clause "only in response to commands or the parent's state") ---------- *)
-(* a request born of parent/child propagation inside the controller *)
-Definition prop_req (r : req) : Prop :=
-  r_ev r = EvNone /\ r_tries r = 0%nat /\ (r_act r = AOpen \/ r_act r = AClose).
-(* a handler appends only propagation requests to the work queue *)
-Definition emits (s s' : st) : Prop := exists l, wq s' = wq s ++ l /\ Forall prop_req l.
+(* a request born of parent/child propagation while a request for queue q is processed
+   (L = the lister at that moment): Event "", Open / Close, no retries yet, and its target
+   is q itself (q's own sync reacting to the state the lister shows for q's parent) or a
+   queue the lister shows as a CHILD of q (q's close / re-open propagating downwards) *)
+Definition prop_req_at (L : qmap) (q : positive) (x : req) : Prop :=
+  r_ev x = EvNone /\ r_tries x = 0%nat /\ (r_act x = AOpen \/ r_act x = AClose) /\
+  (r_q x = q \/ exists co, L !! r_q x = Some co /\ q_parent co = Some q).
+Definition emits (L : qmap) (q : positive) (s s' : st) : Prop :=
+  exists l, wq s' = wq s ++ l /\ Forall (prop_req_at L q) l.
 
-Lemma emits_refl s : emits s s.
+Lemma emits_refl L q s : emits L q s s.
 Proof. exists []. split; [by rewrite app_nil_r|constructor]. Qed.
-Lemma emits_trans a b c : emits a b -> emits b c -> emits a c.
+Lemma emits_trans L q a b c : emits L q a b -> emits L q b c -> emits L q a c.
 Proof.
   intros (l1&H1&F1) (l2&H2&F2). exists (l1 ++ l2). split; [rewrite H2, H1; by rewrite app_assoc|].
   apply Forall_app. done.
 Qed.
-Lemma emits_push s q a : a = AOpen \/ a = AClose -> emits s (push s (mkReq q a EvNone 0)).
-Proof. intros Ha. exists [mkReq q a EvNone 0]. split; [done|]. constructor; [|constructor]. repeat split; done. Qed.
-Lemma emits_same_wq s s' : wq s' = wq s -> emits s s'.
+Lemma emits_same_wq L q s s' : wq s' = wq s -> emits L q s s'.
 Proof. intros H. exists []. split; [by rewrite app_nil_r|constructor]. Qed.
+Lemma emits_push_srv L q s m c a :
+  a = AOpen \/ a = AClose -> (c = q \/ exists co, L !! c = Some co /\ q_parent co = Some q) ->
+  emits L q s (push (set_srv s m) (mkReq c a EvNone 0)).
+Proof. intros Ha Hc. exists [mkReq c a EvNone 0]. split; [done|]. constructor; [|constructor]. repeat split; done. Qed.
+Lemma emits_push L q s c a :
+  a = AOpen \/ a = AClose -> (c = q \/ exists co, L !! c = Some co /\ q_parent co = Some q) ->
+  emits L q s (push s (mkReq c a EvNone 0)).
+Proof. intros Ha Hc. exists [mkReq c a EvNone 0]. split; [done|]. constructor; [|constructor]. repeat split; done. Qed.
 
-Lemma emits_push_srv s m q a :
-  a = AOpen \/ a = AClose -> emits s (push (set_srv s m) (mkReq q a EvNone 0)).
-Proof. intros Ha. exists [mkReq q a EvNone 0]. split; [done|]. constructor; [|constructor]. repeat split; done. Qed.
-
-Lemma sync_hier_emits s q view s' ok : sync_hier s q view = (s', ok) -> emits s s'.
+Lemma sync_hier_emits L s q view s' ok : sync_hier s q view = (s', ok) -> emits L q s s'.
 Proof.
   unfold sync_hier. intros H.
   repeat case_match; simplify_eq; try apply emits_refl;
-  first [apply emits_push_srv; auto | apply emits_push; auto].
+  first [apply emits_push_srv; [auto|by left] | apply emits_push; [auto|by left]].
 Qed.
 
-Lemma fold_open_emits (l : list (positive * qobj)) : forall s,
-  emits s (fold_left (fun s' cc => if cbp_true (q_ann (snd cc)) then push s' (mkReq (fst cc) AOpen EvNone 0) else s') l s).
+Definition child_list (L : qmap) (q : positive) (l : list (positive * qobj)) : Prop :=
+  forall cc, In cc l -> L !! fst cc = Some (snd cc) /\ q_parent (snd cc) = Some q.
+
+Lemma fold_open_emits L q (l : list (positive * qobj)) : child_list L q l -> forall s,
+  emits L q s (fold_left (fun s' cc => if cbp_true (q_ann (snd cc)) then push s' (mkReq (fst cc) AOpen EvNone 0) else s') l s).
 Proof.
-  induction l as [|cc l IH]; intros s; cbn [fold_left]; [apply emits_refl|].
-  destruct (cbp_true (q_ann cc.2)); [|apply IH].
-  eapply emits_trans; [apply (emits_push s (fst cc) AOpen); auto|apply IH].
+  induction l as [|cc l IH]; intros Hl s; cbn [fold_left]; [apply emits_refl|].
+  assert (Hl' : child_list L q l) by (intros x Hx; apply Hl; by right).
+  destruct (cbp_true (q_ann cc.2)); [|by apply IH].
+  eapply emits_trans; [apply (emits_push L q s (fst cc) AOpen); [auto|]|by apply IH].
+  right. exists (snd cc). apply Hl. by left.
 Qed.
 
-Lemma open_hier_emits s q view s' ok : open_hier s q view = (s', ok) -> emits s s'.
+Lemma children_child_list s q : child_list (lst s) q (children s q).
+Proof. intros [c co] H. apply children_In in H. done. Qed.
+
+Lemma open_hier_emits s q view s' ok : open_hier s q view = (s', ok) -> emits (lst s) q s s'.
 Proof.
-  unfold open_hier. intros H. case_match; simplify_eq; [apply emits_refl|apply fold_open_emits].
+  unfold open_hier. intros H. case_match; simplify_eq; [apply emits_refl|].
+  apply fold_open_emits, children_child_list.
 Qed.
 
-Lemma close_children_emits l : forall s s' ok, close_children s l = (s', ok) -> emits s s'.
+Lemma close_children_emits L q l : child_list L q l -> forall s s' ok, close_children s l = (s', ok) -> emits L q s s'.
 Proof.
-  induction l as [|[c co] l IH]; intros s s' ok H; simpl in H; simplify_eq; [apply emits_refl|].
+  induction l as [|[c co] l IH]; intros Hl s s' ok H; simpl in H; simplify_eq; [apply emits_refl|].
+  assert (Hl' : child_list L q l) by (intros x Hx; apply Hl; by right).
   destruct (is_closedish (q_state co)); [by eapply IH|].
   destruct (patch_ann (srv s) c (q_ann co) true) as [m|] eqn:E; simplify_eq; [|apply emits_refl].
-  apply IH in H. eapply emits_trans; [|exact H]. apply emits_push_srv; auto.
+  apply IH in H; [|done]. eapply emits_trans; [|exact H]. apply emits_push_srv; [auto|].
+  right. exists co. apply (Hl (c, co)). by left.
 Qed.
 
-Lemma sync_queue_emits s q view fn s' ok : sync_queue s q view fn = (s', ok) -> emits s s'.
+Lemma sync_queue_emits L s q view fn s' ok : sync_queue s q view fn = (s', ok) -> emits L q s s'.
 Proof.
   unfold sync_queue. intros H.
   assert (K : forall (s1 : st) v1 s'' ok', wq s1 = wq s ->
@@ -1223,12 +1240,12 @@ Proof.
              else match apply_state (srv s2) q new with
                   | None => (s2, false)
                   | Some (m, o') => sync_hier (set_srv s2 m) q o'
-                  end) = (s'', ok') -> emits s s'').
+                  end) = (s'', ok') -> emits L q s s'').
   { intros s1 v1 s'' ok' Hw HH. cbn zeta in HH.
     destruct (bool_decide (fn (length (pgs_of (idx s1) q)) = q_state view)).
-    - apply sync_hier_emits in HH. eapply emits_trans; [|exact HH]. by apply emits_same_wq.
+    - apply (sync_hier_emits L) in HH. eapply emits_trans; [|exact HH]. by apply emits_same_wq.
     - destruct (apply_state _ _ _) as [[m o']|]; simplify_eq.
-      + apply sync_hier_emits in HH. eapply emits_trans; [|exact HH]. by apply emits_same_wq.
+      + apply (sync_hier_emits L) in HH. eapply emits_trans; [|exact HH]. by apply emits_same_wq.
       + by apply emits_same_wq. }
   destruct (bool_decide (q = root) || bool_decide (is_Some (q_parent view))).
   - eapply K; eauto.
@@ -1236,7 +1253,7 @@ Proof.
     eapply (K (set_srv s _)); eauto.
 Qed.
 
-Lemma open_queue_emits s q view s' ok : open_queue s q view = (s', ok) -> emits s s'.
+Lemma open_queue_emits s q view s' ok : open_queue s q view = (s', ok) -> emits (lst s) q s s'.
 Proof.
   unfold open_queue. intros H.
   destruct (bool_decide (q_state view = SOpen)).
@@ -1247,20 +1264,21 @@ Proof.
     destruct (patch_ann _ _ _ _); simplify_eq; (eapply emits_trans; [exact E1|by apply emits_same_wq]).
 Qed.
 
-Lemma close_queue_emits s q view fn s' ok : close_queue s q view fn = (s', ok) -> emits s s'.
+Lemma close_queue_emits s q view fn s' ok : close_queue s q view fn = (s', ok) -> emits (lst s) q s s'.
 Proof.
   unfold close_queue. intros H.
   destruct (negb (is_closedish (q_state view)) && bool_decide (q = root)); simplify_eq; [apply emits_refl|].
   destruct (if is_closedish (q_state view) then (s, true) else close_children s (children s q)) as [s1 ok1] eqn:E1.
-  assert (F1 : emits s s1).
-  { destruct (is_closedish (q_state view)); simplify_eq; [apply emits_refl|by eapply close_children_emits]. }
+  assert (F1 : emits (lst s) q s s1).
+  { destruct (is_closedish (q_state view)); simplify_eq; [apply emits_refl|].
+    eapply close_children_emits; [apply children_child_list|exact E1]. }
   destruct ok1; simpl in H; simplify_eq; [|done].
   destruct (bool_decide _); simplify_eq; [done|].
   destruct (apply_state (srv s1) q _) as [[m o']|]; simplify_eq; [|done].
   eapply emits_trans; [exact F1|by apply emits_same_wq].
 Qed.
 
-Lemma exec_emits s q view a s' ok : exec s q view a = (s', ok) -> emits s s'.
+Lemma exec_emits s q view a s' ok : exec s q view a = (s', ok) -> emits (lst s) q s s'.
 Proof.
   unfold exec. intros H.
   destruct (q_state view), a;
@@ -1270,21 +1288,24 @@ Proof.
   simplify_eq; apply emits_refl.
 Qed.
 
-(* what a processing step appends to the work queue (the core of law 108): propagation
-   requests, then at most the retry of the processed request *)
+(* what a processing step appends to the work queue (the Prop form of law 108): propagation
+   requests for the processed queue itself or for its lister-children, then at most the
+   retry of the processed request *)
 Theorem proc_emits s i r :
   nth_error (wq s) i = Some r ->
-  exists l t, wq (proc s i).1 = remove_nth i (wq s) ++ l ++ t /\ Forall prop_req l /\ (t = [] \/ t = [retry r]).
+  exists l t, wq (proc s i).1 = remove_nth i (wq s) ++ l ++ t /\
+              Forall (prop_req_at (lst s) (r_q r)) l /\ (t = [] \/ t = [retry r]) /\
+              (l = [] \/ is_Some (lst s !! r_q r)).
 Proof.
   intros Hn. unfold proc. rewrite Hn.
   destruct (lst s !! r_q r) as [v|]; simpl.
-  2:{ exists [], []. rewrite !app_nil_r. split; [done|]. split; [constructor|by left]. }
-  destruct (exec _ _ _ _) as [s1 ok] eqn:E. apply exec_emits in E as (l&Hw&Hl). simpl in Hw.
+  2:{ exists [], []. rewrite !app_nil_r. split; [done|]. split; [constructor|]. split; by left. }
+  destruct (exec _ _ _ _) as [s1 ok] eqn:E. apply exec_emits in E as (l&Hw&Hl). simpl in Hw, Hl.
   destruct ok; simpl.
-  - exists l, []. rewrite app_nil_r. split; [done|]. split; [done|by left].
+  - exists l, []. rewrite app_nil_r. split; [done|]. split; [done|]. split; [by left|right; eauto].
   - destruct (_ || _); simpl.
-    + exists l, [retry r]. rewrite Hw. rewrite <- app_assoc. split; [done|]. split; [done|by right].
-    + exists l, []. rewrite app_nil_r. split; [done|]. split; [done|by left].
+    + exists l, [retry r]. rewrite Hw. rewrite <- app_assoc. split; [done|]. split; [done|]. split; [by right|right; eauto].
+    + exists l, []. rewrite app_nil_r. split; [done|]. split; [done|]. split; [by left|right; eauto].
 Qed.
 
 (* handler-born requests (Event OutOfSync) are Sync requests: an invariant of every history *)
@@ -1303,7 +1324,7 @@ Lemma wq_wf_proc s i : wq_wf s -> wq_wf (proc s i).1.
 Proof.
   intros W.
   destruct (nth_error (wq s) i) as [r|] eqn:Hn; [|unfold proc; by rewrite Hn].
-  destruct (proc_emits s i r Hn) as (l&t&Hw&Hl&Ht). unfold wq_wf. rewrite Hw.
+  destruct (proc_emits s i r Hn) as (l&t&Hw&Hl&Ht&_). unfold wq_wf. rewrite Hw.
   assert (Hr : r_ev r = EvOutOfSync -> r_act r = ASync).
   { unfold wq_wf in W. rewrite Forall_forall in W. apply W. eapply nth_error_In; eauto. }
   apply Forall_app. split; [by apply Forall_remove_nth|]. apply Forall_app. split.
@@ -1352,6 +1373,132 @@ Proof.
   apply proc_of_inv in P as (i&_&Hn&_).
   unfold wq_wf in Wf. rewrite Forall_forall in Wf. specialize (Wf r (nth_error_In _ _ Hn)).
   destruct (r_ev r); auto.
+Qed.
+
+(* ---------- clause 1 as a HISTORY theorem: every state move has a cause in the history ---------- *)
+Lemma run_snoc s h e : run s (h ++ [e]) = (step (run s h) e).1.
+Proof. unfold run. by rewrite fold_left_app. Qed.
+
+(* x was appended while event e (a processing step) was handled in state s: the processed
+   request was for x's own queue, or for the queue the lister then showed as its parent *)
+Definition from_step (s : st) (e : ev) (x : req) : Prop :=
+  exists r v, proc_of s e = Some (r, v) /\
+    (r_q x = r_q r \/ exists co, lst s !! r_q x = Some co /\ q_parent co = Some (r_q r)).
+
+(* where a pending request comes from, in terms of the history h from s0:
+   - Event CommandIssued: an [ECmd] for that queue with that action occurs in h;
+   - Event OutOfSync (informer handler): it is a Sync;
+   - Event "" (propagation): it is an Open / Close that was appended at some earlier point
+     of h while a request for the queue itself (its own sync reacting to the parent's state in
+     the lister) or for its lister-parent (the parent's close / re-open) was being processed *)
+Definition origin (s0 : st) (h : list ev) (x : req) : Prop :=
+  match r_ev x with
+  | EvCmd => In (ECmd (r_q x) (r_act x)) h
+  | EvOutOfSync => r_act x = ASync
+  | EvNone => (r_act x = AOpen \/ r_act x = AClose) /\
+              exists h1 e h2, h = h1 ++ e :: h2 /\ from_step (run s0 h1) e x
+  end.
+
+Lemma origin_mono s0 h e x : origin s0 h x -> origin s0 (h ++ [e]) x.
+Proof.
+  unfold origin. destruct (r_ev x); [|done|].
+  - intros H. apply in_or_app. by left.
+  - intros (Ha&h1&e1&h2&->&F). split; [done|]. exists h1, e1, (h2 ++ [e]). split; [|done].
+    by rewrite <- app_assoc.
+Qed.
+
+Lemma origin_retry s0 h r : origin s0 h r -> origin s0 h (retry r).
+Proof. unfold origin, from_step, retry. simpl. done. Qed.
+
+Lemma In_remove_nth {A} (x : A) i : forall l, In x (remove_nth i l) -> In x l.
+Proof.
+  induction i as [|i IH]; intros [|y l] H; simpl in *; try done; [by right|].
+  destruct H as [->|H]; [by left|right; by apply IH].
+Qed.
+
+(* what is in the work queue after a step: what was there, a retry of what was there, or
+   something born in this step *)
+Definition born (s : st) (e : ev) (x : req) : Prop :=
+  (exists q a, e = ECmd q a /\ x = mkReq q a EvCmd 0) \/
+  (r_ev x = EvOutOfSync /\ r_act x = ASync) \/
+  (r_ev x = EvNone /\ (r_act x = AOpen \/ r_act x = AClose) /\ from_step s e x).
+
+Lemma proc_wq_in s i x :
+  In x (wq (proc s i).1) ->
+  In x (wq s) \/ (exists r, In r (wq s) /\ x = retry r) \/
+  (r_ev x = EvNone /\ (r_act x = AOpen \/ r_act x = AClose) /\ from_step s (EProc i) x).
+Proof.
+  intros H. destruct (nth_error (wq s) i) as [r|] eqn:Hn.
+  2:{ unfold proc in H. rewrite Hn in H. by left. }
+  destruct (proc_emits s i r Hn) as (l&t&Hw&Hl&Ht&Hv). rewrite Hw in H.
+  apply in_app_or in H as [H|H]; [left; by eapply In_remove_nth|].
+  apply in_app_or in H as [H|H].
+  - right. right. rewrite Forall_forall in Hl. destruct (Hl x H) as (E&_&A&T).
+    split; [done|]. split; [done|].
+    destruct Hv as [->|[v Hv]]; [done|]. exists r, v. split; [|done]. simpl. by rewrite Hn, Hv.
+  - destruct Ht as [->| ->]; [done|]. destruct H as [<-|[]]. right. left. exists r. split; [|done].
+    eapply nth_error_In; eauto.
+Qed.
+
+Lemma step_wq_in s e x :
+  In x (wq (step s e).1) ->
+  In x (wq s) \/ (exists r, In r (wq s) /\ x = retry r) \/ born s e x.
+Proof.
+  intros H. destruct e as [q a|pg q ph|pg q ph|pg|q p|q p|q|q|q|i|i c]; simpl in H.
+  - apply in_app_or in H as [H|H]; [by left|]. destruct H as [<-|[]]. right. right. left. eauto.
+  - apply in_app_or in H as [H|H]; [by left|]. destruct H as [<-|[]]. right. right. right. by left.
+  - repeat case_match; simpl in H;
+    first [by left | (apply in_app_or in H as [H|H]; [by left|]; destruct H as [<-|[]]; right; right; right; by left)].
+  - repeat case_match; simpl in H;
+    first [by left | (apply in_app_or in H as [H|H]; [by left|]; destruct H as [<-|[]]; right; right; right; by left)].
+  - repeat case_match; simpl in H; by left.
+  - repeat case_match; simpl in H; by left.
+  - by left.
+  - repeat case_match; simpl in H;
+    first [by left | (apply in_app_or in H as [H|H]; [by left|]; destruct H as [<-|[]]; right; right; right; by left)].
+  - repeat case_match; simpl in H;
+    first [by left | (apply in_app_or in H as [H|H]; [by left|]; destruct H as [<-|[]]; right; right; right; by left)].
+  - apply proc_wq_in in H as [?|[?|(E&A&F)]]; [by left|by right; left|]. right. right. right. right. done.
+  - rewrite procF_fst in H. destruct (restore_fields s c (proc (hide s c) i).1) as (_&_&_&Hw&_). rewrite Hw in H.
+    apply proc_wq_in in H as [?|[?|(E&A&F)]]; [by left|by right; left|]. right. right. right. right.
+    split; [done|]. split; [done|]. exact F.
+Qed.
+
+Lemma origin_inv s0 h : wq s0 = [] -> Forall (origin s0 h) (wq (run s0 h)).
+Proof.
+  intros H0. induction h as [|e h IH] using rev_ind.
+  - unfold run. simpl. rewrite H0. constructor.
+  - rewrite run_snoc. apply Forall_forall. intros x Hx. rewrite Forall_forall in IH.
+    apply step_wq_in in Hx as [Hx|[(r&Hr&->)|B]].
+    + apply origin_mono. by apply IH.
+    + apply origin_mono, origin_retry. by apply IH.
+    + destruct B as [(q&a&->&->)|[[E A]|(E&A&F)]]; unfold origin.
+      * simpl. apply in_or_app. right. by left.
+      * rewrite E. done.
+      * rewrite E. split; [done|]. exists h, e, []. done.
+Qed.
+
+(* HISTORY THEOREM for clause 1.  From a start state with an EMPTY work queue, after any
+   history h: whenever the state of queue q moves (a -> b), a request r for q is being
+   processed, b is the target the state tables give for the lister's state, r's action and
+   q's PodGroup count, and r has a cause in h:
+   (a) r carries Event CommandIssued and h contains the command [ECmd q (r_act r)], or
+   (b) r is a propagated Open / Close that was appended earlier in h while a request for q's
+       lister-parent (the parent's close / re-open) or for q itself (q's own sync reacting to
+       the parent's state in the lister) was processed, or
+   (c) r is an informer handler's Sync, whose effect is then the Sync target: "" -> Open,
+       Closing -> Closed iff q's index is empty, otherwise the state the lister shows. *)
+Theorem state_moves_have_a_cause s0 h e q a b : let s := run s0 h in
+  wq s0 = [] ->
+  sst (srv s) q = Some a -> sst (srv (step s e).1) q = Some b -> a <> b ->
+  exists r v, proc_of s e = Some (r, v) /\ r_q r = q /\
+    b = target (q_state v) (r_act r) (length (pgs_of (idx s) q)) /\
+    origin s0 h r.
+Proof.
+  intros s H0 Ha Hb Hab. destruct (only_by_request s e q a b) as (r&v&P&Hq&T); try done.
+  exists r, v. repeat split; try done.
+  pose proof (origin_inv s0 h H0) as Inv. fold s in Inv. rewrite Forall_forall in Inv.
+  apply proc_of_inv in P as (i&_&Hn&_). apply Inv. eapply nth_error_In; eauto.
 Qed.
 
 (* ---------- quiescent end states: what is FALSE (findings) ---------- *)
@@ -1404,6 +1551,27 @@ Example quiescent_open_child_both_orders :
   law_children_follow_closed_parent sE = false.
 Proof. vm_compute. repeat split. Qed.
 
+(* the start-state hypothesis cannot be dropped: a pending propagation request of unknown
+   origin closes an unrelated queue *)
+Example cause_needs_empty_start :
+  let s0 := mkSt (srv (open3_init SOpen None)) (lst (open3_init SOpen None)) ∅ [] [mkReq q3 AClose EvNone 0] 3 in
+  sst (srv (run s0 [EProc 0])) q3 = Some SClosed.
+Proof. vm_compute. reflexivity. Qed.
+
+(* non-vacuity: the three kinds of cause occur (command on q2; propagated Close of q3 born
+   while q2's close was processed; a handler's Sync completing Closing -> Closed is in ex_nonvacuous) *)
+Example causes_occur :
+  let s0 := open3_init SOpen None in
+  origin s0 [ECmd q2 AClose] (mkReq q2 AClose EvCmd 0) /\
+  wq (run s0 [ECmd q2 AClose; EProc 0]) = [mkReq q3 AClose EvNone 0] /\
+  origin s0 [ECmd q2 AClose; EProc 0] (mkReq q3 AClose EvNone 0).
+Proof.
+  split; [by left|]. split; [vm_compute; reflexivity|].
+  split; [by right|]. exists [ECmd q2 AClose], (EProc 0), []. split; [done|].
+  exists (mkReq q2 AClose EvCmd 0), (mkQ (Some 1%positive) SOpen None). split; [vm_compute; reflexivity|].
+  right. exists (mkQ (Some q2) SOpen None). split; [vm_compute; reflexivity|done].
+Qed.
+
 (* ---------- transient API faults ---------- *)
 (* a fault on queue c during a processing step leaves c's server object untouched and the
    request is retried unless its budget is exhausted *)
@@ -1430,6 +1598,17 @@ Example fault_retried_then_consistent :
   caught_up s = true /\ sst (srv s) q2 = Some SClosed /\ sst (srv s) q3 = Some SClosed /\ scbp (srv s) q3 = Some true /\
   law_no_stuck_child s = true /\ law_children_follow_closed_parent s = true.
 Proof. vm_compute. repeat split. Qed.
+
+(* the premises of the history theorems hold of a controller that starts with nothing:
+   no PodGroups known, an Open root *)
+Example start_state_premises :
+  let s0 := open3_init SOpen None in
+  idx_complete s0 /\ root_okP s0 /\ wq s0 = [].
+Proof.
+  split; [|split; [|done]].
+  - intros pg q ph H. vm_compute in H. done.
+  - split; intros x Hx; vm_compute in Hx; by simplify_eq.
+Qed.
 
 Lemma laws_accept_model s e :
   law_only_by_request s e (step s e).1 = true /\
